@@ -18,15 +18,15 @@ theorem simL_step {fuel : Nat} (ih : SimE fo host P bodies fuel) (ihL : SimL fo 
   intro cur items st acc r st' h root pc rs0 vs fr entry hloc hwf hen hj hent hlt
   cases items with
   | nil =>
-    simp only [evalList, Out.ok.injEq, Prod.mk.injEq] at h
+    simp only [evalListS, Out.ok.injEq, Prod.mk.injEq] at h
     obtain ⟨rfl, rfl⟩ := h
     exact ⟨[], by simp, rfl, by simpa [lenList] using Reach.refl _⟩
   | cons x xs =>
     simp only [LocatedList] at hloc
-    simp only [wfEList, Bool.and_eq_true] at hwf
+    simp only [wfCList, Bool.and_eq_true] at hwf
     have hen' : root = cur ∨ (enFree x = true ∧ enFreeList xs = true) := by simpa [enFreeList] using hen
     simp only [lenList] at hlt
-    simp only [evalList] at h
+    simp only [evalListS] at h
     rcases eval_cases (fo := fo) (host := host) (bodies := bodies) (cur := cur) (fuel := fuel) (x := x) (st := st)
       with ⟨w, st1, hx⟩ | ⟨w, st1, hx⟩ | ⟨e, hx⟩ | hx <;> simp only [hx] at h
     · have ihx := (ih x cur st _ _ hx root pc rs0 vs fr entry hloc.1 hwf.1 (hen'.imp id (·.1)) hj hent (by omega)).toReach
@@ -59,12 +59,12 @@ theorem sim_list {fuel : Nat} (ihL : SimL fo host P bodies fuel)
   have h0 := h
   simp only [Located] at hloc
   obtain ⟨hll, hi⟩ := hloc
-  simp only [wfE] at hwf
+  simp only [wfC] at hwf
   have hen' : root = cur ∨ enFreeList items = true := by simpa [enFree] using hen
   have hend : pc + len (.list items) = pc + lenList items + 1 := by simp only [len]; omega
   rw [hend] at hlt ⊢
-  simp only [evalF] at h
-  cases hl : evalList fo host bodies cur fuel items st [] with
+  simp only [evalFS] at h
+  cases hl : evalListS fo host bodies cur fuel items st [] with
   | err e => simp [hl] at h
   | fuelOut => simp [hl] at h
   | ok p =>
@@ -98,11 +98,11 @@ theorem sim_prefixApply {fuel : Nat} (ih : SimE fo host P bodies fuel) (ihA : Si
   have h0 := h
   simp only [Located] at hloc
   obtain ⟨⟨k, hi0, hc⟩, hlx, hi⟩ := hloc
-  simp only [wfE] at hwf
+  simp only [wfC] at hwf
   have hen' : root = cur ∨ enFree x = true := by simpa [enFree] using hen
   have hend : pc + len (.prefixApply sym x) = pc + 1 + len x + 1 := by simp only [len]; omega
   rw [hend] at hlt ⊢
-  simp only [evalF] at h
+  simp only [evalFS] at h
   rcases resolveVal_cases (fo := fo) (host := host) st sym with ⟨wf, st1, hr⟩ | ⟨e, hr⟩ <;> simp only [hr] at h
   · have hinp := resolveVal_inp hr
     have h1 : Reach fo host P ⟨pc, rs, st.inp :: vs, fr, st.trace⟩ ⟨pc + 1, wf :: rs, st1.inp :: vs, fr, st1.trace⟩ := by
@@ -127,11 +127,11 @@ theorem sim_suffixApply {fuel : Nat} (ih : SimE fo host P bodies fuel) (ihA : Si
   have h0 := h
   simp only [Located] at hloc
   obtain ⟨⟨k, hi0, hc⟩, hlx, hi⟩ := hloc
-  simp only [wfE] at hwf
+  simp only [wfC] at hwf
   have hen' : root = cur ∨ enFree x = true := by simpa [enFree] using hen
   have hend : pc + len (.suffixApply x sym) = pc + 1 + len x + 1 := by simp only [len]; omega
   rw [hend] at hlt ⊢
-  simp only [evalF] at h
+  simp only [evalFS] at h
   rcases resolveVal_cases (fo := fo) (host := host) st sym with ⟨wf, st1, hr⟩ | ⟨e, hr⟩ <;> simp only [hr] at h
   · have hinp := resolveVal_inp hr
     have h1 : Reach fo host P ⟨pc, rs, st.inp :: vs, fr, st.trace⟩ ⟨pc + 1, wf :: rs, st1.inp :: vs, fr, st1.trace⟩ := by
@@ -156,11 +156,11 @@ theorem sim_infixApply {fuel : Nat} (ih : SimE fo host P bodies fuel) (ihA : Sim
   have h0 := h
   simp only [Located] at hloc
   obtain ⟨⟨k, hi0, hc⟩, hla, hlb, hi1, hi2⟩ := hloc
-  simp only [wfE, Bool.and_eq_true] at hwf
+  simp only [wfC, Bool.and_eq_true] at hwf
   have hen' : root = cur ∨ (enFree a = true ∧ enFree b = true) := by simpa [enFree] using hen
   have hend : pc + len (.infixApply a sym b) = pc + 1 + len a + len b + 1 + 1 := by simp only [len]; omega
   rw [hend] at hlt ⊢
-  simp only [evalF] at h
+  simp only [evalFS] at h
   rcases resolveVal_cases (fo := fo) (host := host) st sym with ⟨wf, st1, hr⟩ | ⟨e, hr⟩ <;> simp only [hr] at h
   · have hinp := resolveVal_inp hr
     have h1 : Reach fo host P ⟨pc, rs, st.inp :: vs, fr, st.trace⟩ ⟨pc + 1, wf :: rs, st1.inp :: vs, fr, st1.trace⟩ := by
@@ -200,11 +200,11 @@ theorem sim_infixApply {fuel : Nat} (ih : SimE fo host P bodies fuel) (ihA : Sim
 
 /-- the body of a conditional or of an arm of an else-chain: laid out at `tb`, it returns to the join -/
 theorem branch_body {fuel : Nat} (ih : SimE fo host P bodies fuel) {cur : Nat} {t : Expr F} {st st' : St F} {res : Res F}
-    (h : evalF fo host bodies cur fuel t st = .ok (res, st'))
+    (h : evalFS fo host bodies cur fuel t st = .ok (res, st'))
     {j tb join pcJoin entry : Nat} {rs vs : List (Val F)} {fr : List (Frame F)}
     (hlt : Located P j cur tb t)
     (hterm : InstrsAt P (tb + len t) (termsAfter P (tb + len t) [(.jumpTo, some join)]))
-    (hwf : wfE t = true) (henf : enFree t = true) (hjoin : P.jumps[join]? = some pcJoin) (hne : join ≠ cur)
+    (hwf : wfC t = true) (henf : enFree t = true) (hjoin : P.jumps[join]? = some pcJoin) (hne : join ≠ cur)
     (hpj : pcJoin < P.instrs.size) (hj : P.jumps[cur]? = some entry) (hent : entry < P.instrs.size) :
     tb < P.instrs.size ∧ ResOK fo host P entry tb pcJoin (tailR t) rs vs fr st res st' := by
   rw [termsAfter_jump] at hterm
@@ -222,14 +222,14 @@ theorem sim_cond {fuel : Nat} (ih : SimE fo host P bodies fuel)
   intro cur st res st' h root pc rs vs fr entry hloc hwf hen hj hent hlt
   simp only [Located] at hloc
   obtain ⟨hlc, j, join, tb, hi1, hi2, hjj, hjoin, hne, hlt', hterm⟩ := hloc
-  simp only [wfE, Bool.and_eq_true] at hwf
+  simp only [wfC, Bool.and_eq_true] at hwf
   have hen' : root = cur ∨ enFree c = true := by
     rcases hen with h | h
     · exact .inl h
     · simp only [enFree, Bool.and_eq_true] at h; exact .inr h.1
   have hend : pc + len (.cond onTrue c t) = pc + len c + 2 := by simp only [len]; omega
   rw [hend] at hlt ⊢
-  simp only [evalF] at h
+  simp only [evalFS] at h
   rcases eval_cases (fo := fo) (host := host) (bodies := bodies) (cur := cur) (fuel := fuel) (x := c) (st := st)
     with ⟨wc, st1, hx⟩ | ⟨w, st1, hx⟩ | ⟨e, hx⟩ | hx <;> simp only [hx] at h
   · have ihc := (ih c cur st _ _ hx root pc rs vs fr entry hlc hwf.1.1 hen' hj hent (by omega)).toReach
@@ -272,7 +272,7 @@ theorem simC_step {fuel : Nat} (ih : SimE fo host P bodies fuel) (ihC : SimC fo 
   intro cur arms fe st res st' h root pc rs vs fr entry join hla hlf hwa hwf hen hjoin hj hent hlt
   cases arms with
   | nil =>
-    simp only [evalChain] at h
+    simp only [evalChainS] at h
     simp only [lenArms, Nat.add_zero] at hlf hlt ⊢
     have hen' : root = cur ∨ enFree fe = true := by simpa [enFreeArms] using hen
     have := ih fe cur st res st' h root pc rs vs fr entry hlf hwf hen' hj hent hlt
@@ -282,7 +282,7 @@ theorem simC_step {fuel : Nat} (ih : SimE fo host P bodies fuel) (ihC : SimC fo 
     obtain ⟨hjoin, hne⟩ := hjoin (by simp)
     simp only [LocatedArms] at hla
     obtain ⟨hlc, ⟨j, tb, hi1, hjj, hlt', hterm⟩, hlr⟩ := hla
-    simp only [wfEArms, Bool.and_eq_true] at hwa
+    simp only [wfCArms, Bool.and_eq_true] at hwa
     have hen' : root = cur ∨ (enFree c = true ∧ enFreeArms rest = true ∧ enFree fe = true) := by
       rcases hen with h | h
       · exact .inl h
@@ -293,7 +293,7 @@ theorem simC_step {fuel : Nat} (ih : SimE fo host P bodies fuel) (ihC : SimC fo 
     have hlf' : Located P root cur (pc + len c + 1 + lenArms rest) fe := by
       have : pc + lenArms ((onTrue, c, t) :: rest) = pc + len c + 1 + lenArms rest := by simp only [lenArms]; omega
       rw [this] at hlf; exact hlf
-    simp only [evalChain] at h
+    simp only [evalChainS] at h
     rcases eval_cases (fo := fo) (host := host) (bodies := bodies) (cur := cur) (fuel := fuel) (x := c) (st := st)
       with ⟨wc, st1, hx⟩ | ⟨w, st1, hx⟩ | ⟨e, hx⟩ | hx <;> simp only [hx] at h
     · have ihc := (ih c cur st _ _ hx root pc rs vs fr entry hlc hwa.1.1.1 (hen'.imp id (·.1)) hj hent (by omega)).toReach
@@ -335,19 +335,95 @@ theorem simC_step {fuel : Nat} (ih : SimE fo host P bodies fuel) (ihC : SimC fo 
     · simp at h
     · simp at h
 
-theorem sim_chain {fuel : Nat} (ihC : SimC fo host P bodies fuel)
+theorem simCN_step {fuel : Nat} (ih : SimE fo host P bodies fuel) (ihC : SimCN fo host P bodies fuel) :
+    SimCN fo host P bodies (fuel + 1) := by
+  intro cur arms st res st' h root pc rs vs fr entry join hla hwa hen hjoin hj hent hlt
+  cases arms with
+  | nil => simp [evalChainS] at h
+  | cons arm rest =>
+    obtain ⟨onTrue, c, t⟩ := arm
+    obtain ⟨hjoin, hne⟩ := hjoin (by simp)
+    simp only [LocatedArms] at hla
+    obtain ⟨hlc, ⟨j, tb, hi1, hjj, hlt', hterm⟩, hlr⟩ := hla
+    simp only [wfCArms, Bool.and_eq_true] at hwa
+    have hen' : root = cur ∨ (enFree c = true ∧ enFreeArms rest = true) := by
+      rcases hen with h | h
+      · exact .inl h
+      · simp only [enFreeArms, Bool.and_eq_true] at h; exact .inr ⟨h.1.1, h.2⟩
+    have hend : pc + lenArms ((onTrue, c, t) :: rest) = pc + len c + 1 + lenArms rest := by
+      simp only [lenArms]; omega
+    rw [hend] at hlt hjoin ⊢
+    simp only [evalChainS] at h
+    rcases eval_cases (fo := fo) (host := host) (bodies := bodies) (cur := cur) (fuel := fuel) (x := c) (st := st)
+      with ⟨wc, st1, hx⟩ | ⟨w, st1, hx⟩ | ⟨e, hx⟩ | hx <;> simp only [hx] at h
+    · have ihc := (ih c cur st _ _ hx root pc rs vs fr entry hlc hwa.1.1.1 (hen'.imp id (·.1)) hj hent (by omega)).toReach
+      have htb : tb < P.instrs.size := by
+        rw [termsAfter_jump] at hterm
+        simp only [InstrsAt, and_true] at hterm
+        have := lt_size_of_get hterm
+        omega
+      have hjmp := step_jumpIf (fo := fo) (host := host) (rs := rs) (vs := st1.inp :: vs) (fr := fr) (tr := st1.trace)
+        (d := wc) hi1 hjj htb (by omega)
+      split at h
+      · rename_i htr
+        obtain ⟨_, hb⟩ := branch_body (rs := rs) (vs := vs) (fr := fr) ih h hlt' hterm hwa.1.1.2 hwa.1.2 hjoin hne hlt hj hent
+        simp only [htr, if_true] at hjmp
+        have pre := ihc.snoc hjmp
+        cases res with
+        | val v => exact ResOK.ofReach (pre.trans hb.toReach)
+        | restart v =>
+          refine ResOK.sub_restart (pend := []) pre hb (fun ht => ?_)
+          simp only [tailRArms, Bool.and_eq_true] at ht
+          exact ⟨ht.1.2, rfl⟩
+      · rename_i htr
+        simp only [htr, Bool.false_eq_true, if_false] at hjmp
+        have pre := ihc.snoc hjmp
+        have ihr := ihC cur rest st1 res st' h root (pc + len c + 1) rs vs fr entry join hlr hwa.2
+          (hen'.imp id (fun h => h.2)) (fun _ => ⟨hjoin, hne⟩) hj hent hlt
+        cases res with
+        | val v => exact ResOK.ofReach (pre.trans ihr.toReach)
+        | restart v =>
+          refine ResOK.sub_restart (pend := []) pre ihr (fun ht => ?_)
+          simp only [tailRArms, Bool.and_eq_true] at ht
+          exact ⟨ht.2, rfl⟩
+    · simp only [Out.ok.injEq, Prod.mk.injEq] at h
+      obtain ⟨rfl, rfl⟩ := h
+      refine ResOK.sub_restart (pend := []) (.refl _)
+        (ih c cur st _ _ hx root pc rs vs fr entry hlc hwa.1.1.1 (hen'.imp id (·.1)) hj hent (by omega)) (fun ht => ?_)
+      simp only [tailRArms, Bool.and_eq_true] at ht
+      exact (noR_sound ht.1.1 hx).elim
+    · simp at h
+    · simp at h
+
+theorem sim_chain {fuel : Nat} (ihC : SimC fo host P bodies fuel) (ihCN : SimCN fo host P bodies fuel)
     (arms : List (Bool × Expr F × Expr F)) (final : Option (Expr F)) :
     SimAt fo host P bodies (fuel + 1) (.chain arms final) := by
   intro cur st res st' h root pc rs vs fr entry hloc hwf hen hj hent hlt
   cases final with
-  | none => simp [wfE_chain] at hwf
+  | none =>
+    rw [Located_chain] at hloc
+    obtain ⟨join, hla, _, hjoin⟩ := hloc
+    simp only [wfC_chain, Bool.and_eq_true] at hwf
+    simp only [evalFS] at h
+    cases arms with
+    | nil => cases fuel <;> simp [evalChainS] at h
+    | cons a rest =>
+      have hend : pc + len (.chain (a :: rest) none) = pc + lenArms (a :: rest) := by rw [len_chain]; simp only; omega
+      rw [hend] at hlt hjoin ⊢
+      have hen' : root = cur ∨ enFreeArms (a :: rest) = true := by
+        rcases hen with h | h
+        · exact .inl h
+        · rw [enFree_chain] at h; simp only [Bool.and_eq_true] at h; exact .inr h.1
+      have := ihCN cur (a :: rest) st res st' h root pc rs vs fr entry join hla hwf.1 hen' hjoin hj hent hlt
+      rw [tailR_chain]
+      simpa using this
   | some fe =>
     rw [Located_chain] at hloc
     obtain ⟨join, hla, hlf, hjoin⟩ := hloc
-    simp only [wfE_chain, Bool.and_eq_true] at hwf
+    simp only [wfC_chain, Bool.and_eq_true] at hwf
     have hend : pc + len (.chain arms (some fe)) = pc + lenArms arms + len fe := by rw [len_chain]; simp only; omega
     rw [hend] at hlt hjoin ⊢
-    simp only [evalF] at h
+    simp only [evalFS] at h
     have hen' : root = cur ∨ (enFreeArms arms && enFree fe) = true := by
       rcases hen with h | h
       · exact .inl h
@@ -358,11 +434,11 @@ theorem sim_chain {fuel : Nat} (ihC : SimC fo host P bodies fuel)
 
 /-- the right operand of `&&` / `||`: laid out at `tb`, followed by `Tis` and the jump to the join -/
 theorem logical_body {fuel : Nat} (ih : SimE fo host P bodies fuel) {cur : Nat} {r : Expr F} {st st' : St F} {res : Res F}
-    (h : evalF fo host bodies cur fuel r st = .ok (res, st'))
+    (h : evalFS fo host bodies cur fuel r st = .ok (res, st'))
     {j tb join pcJoin entry : Nat} {rs vs : List (Val F)} {fr : List (Frame F)}
     (hlr : Located P j cur tb r)
     (hterm : InstrsAt P (tb + len r) (termsAfter P (tb + len r) [(.tis, none), (.jumpTo, some join)]))
-    (hwf : wfE r = true) (henf : enFree r = true)
+    (hwf : wfC r = true) (henf : enFree r = true)
     (hjoin : P.jumps[join]? = some pcJoin)
     (hpj : pcJoin < P.instrs.size) (hj : P.jumps[cur]? = some entry) (hent : entry < P.instrs.size) :
     tb < P.instrs.size ∧
@@ -391,14 +467,14 @@ theorem sim_and {fuel : Nat} (ih : SimE fo host P bodies fuel)
   intro cur st res st' h root pc rs vs fr entry hloc hwf hen hj hent hlt
   simp only [Located] at hloc
   obtain ⟨hll, j, join, tb, hi1, hjj, hjoin, hne, hlr, hterm⟩ := hloc
-  simp only [wfE, Bool.and_eq_true] at hwf
+  simp only [wfC, Bool.and_eq_true] at hwf
   have hen' : root = cur ∨ enFree l = true := by
     rcases hen with h | h
     · exact .inl h
     · simp only [enFree, Bool.and_eq_true] at h; exact .inr h.1
   have hend : pc + len (.and l r) = pc + len l + 1 := by simp only [len]; omega
   rw [hend] at hlt ⊢
-  simp only [evalF] at h
+  simp only [evalFS] at h
   rcases eval_cases (fo := fo) (host := host) (bodies := bodies) (cur := cur) (fuel := fuel) (x := l) (st := st)
     with ⟨wl, st1, hx⟩ | ⟨w, st1, hx⟩ | ⟨e, hx⟩ | hx <;> simp only [hx] at h
   · have ihl := (ih l cur st _ _ hx root pc rs vs fr entry hll hwf.1.1 hen' hj hent (by omega)).toReach
@@ -451,14 +527,14 @@ theorem sim_or {fuel : Nat} (ih : SimE fo host P bodies fuel)
   intro cur st res st' h root pc rs vs fr entry hloc hwf hen hj hent hlt
   simp only [Located] at hloc
   obtain ⟨hll, j, join, tb, hi1, hjj, hjoin, hne, hlr, hterm⟩ := hloc
-  simp only [wfE, Bool.and_eq_true] at hwf
+  simp only [wfC, Bool.and_eq_true] at hwf
   have hen' : root = cur ∨ enFree l = true := by
     rcases hen with h | h
     · exact .inl h
     · simp only [enFree, Bool.and_eq_true] at h; exact .inr h.1
   have hend : pc + len (.or l r) = pc + len l + 1 := by simp only [len]; omega
   rw [hend] at hlt ⊢
-  simp only [evalF] at h
+  simp only [evalFS] at h
   rcases eval_cases (fo := fo) (host := host) (bodies := bodies) (cur := cur) (fuel := fuel) (x := l) (st := st)
     with ⟨wl, st1, hx⟩ | ⟨w, st1, hx⟩ | ⟨e, hx⟩ | hx <;> simp only [hx] at h
   · have ihl := (ih l cur st _ _ hx root pc rs vs fr entry hll hwf.1.1 hen' hj hent (by omega)).toReach
